@@ -670,3 +670,185 @@ def item_dict_store(repo, out):
 
 
 ITEMS = [item_prune, item_fill, item_getters, item_prune_head, item_preselect, item_lostmap, item_options, item_dict_store]
+
+
+# =============================================================================================================
+# round 3: dtypes of the blocks, names of the dask arrays, chunk-name prefixes
+
+def _nf(text):
+    from vh.translate import normalise_source
+    return normalise_source(text)
+
+
+def _one_call(node, func, what):
+    calls = [n for n in ast.walk(node) if isinstance(n, ast.Call) and ast.unparse(n.func) == func]
+    if len(calls) != 1:
+        raise TranslateError('%s: expected exactly one call of %s, found %d' % (what, func, len(calls)))
+    return calls[0]
+
+
+DT_CODES = {'np.uint8': 0, 'np.float32': 1, 'float': 2, 'np.float64': 2, 'np.complex64': 3, 'complex': 4, 'np.complex128': 4}
+
+
+def _dtype_expr(node, param, what):
+    """A dtype argument: the parameter that carries the dtype through (-> its Coq name), or a fixed dtype (-> its code)."""
+    src = ast.unparse(node)
+    if src in param:
+        return param[src]
+    if src in DT_CODES:
+        return coq_Z(DT_CODES[src])
+    raise TranslateError('%s: unsupported dtype expression %s' % (what, src))
+
+
+def item_dtypes(repo, out):
+    """The dtype every constructor of a block is given: PlaceholderChunk(shape, dtype, name) in the getter and in
+    __getitem__, np.zeros in _default_zero, np.full in get_chunk_or_default."""
+    rel = 'katdal/chunkstore.py'
+    tree = _parse(repo, rel)
+    init = _method(tree, 'PlaceholderChunk', '__init__', rel)
+    if _defaults(init) != (['self', 'shape', 'dtype', 'name'], {'name': "''"}) or \
+            _src(_body(init)) != [_nf('self.shape = shape'), _nf('self.dtype = np.dtype(dtype)'), _nf('self.name = name')]:
+        raise TranslateError('PlaceholderChunk.__init__ changed: %s' % _src(_body(init)))
+
+    def ctor_dtype(fn, param, what):
+        c = _one_call(fn, 'PlaceholderChunk', what)
+        kw = {k.arg: k.value for k in c.keywords}
+        if len(c.args) >= 2 and 'dtype' not in kw:
+            return _dtype_expr(c.args[1], param, what)
+        if len(c.args) == 1 and 'dtype' in kw:
+            return _dtype_expr(kw['dtype'], param, what)
+        raise TranslateError('%s: PlaceholderChunk(...) is given no dtype' % what)
+
+    gp = _method(tree, 'ChunkStore', 'get_chunk_or_placeholder', rel)
+    out.append('(* dtypes: 0 uint8, 1 float32, 2 float64, 3 complex64, 4 complex128; what each constructor of a block is given *)')
+    out.append('Definition gen_placeholder_ctor_dtype (dtype : Z) : Z := %s.'
+               % ctor_dtype(gp, {'dtype': 'dtype'}, 'get_chunk_or_placeholder'))
+    pg = _method(tree, 'PlaceholderChunk', '__getitem__', rel)
+    out.append('Definition gen_placeholder_slice_dtype (self_dtype : Z) : Z := %s.'
+               % ctor_dtype(pg, {'self.dtype': 'self_dtype'}, 'PlaceholderChunk.__getitem__'))
+    gd = _method(tree, 'ChunkStore', 'get_chunk_or_default', rel)
+    c = _one_call(gd, 'np.full', 'get_chunk_or_default')
+    kw = {k.arg: k.value for k in c.keywords}
+    if len(c.args) == 3 and not kw:
+        d = _dtype_expr(c.args[2], {'dtype': 'dtype'}, 'get_chunk_or_default')
+    elif len(c.args) == 2 and set(kw) == {'dtype'}:
+        d = _dtype_expr(kw['dtype'], {'dtype': 'dtype'}, 'get_chunk_or_default')
+    else:
+        raise TranslateError('get_chunk_or_default: np.full(...) is given no dtype: %s' % ast.unparse(c))
+    out.append('Definition gen_default_chunk_dtype (dtype : Z) : Z := %s.' % d)
+    relv = 'katdal/vis_flags_weights.py'
+    dz = _mfunc(_parse(repo, relv), '_default_zero', relv)
+    c = _one_call(dz, 'np.zeros', '_default_zero')
+    kw = {k.arg: k.value for k in c.keywords}
+    if not c.args or ast.unparse(c.args[0]) != 'array.shape':
+        raise TranslateError('_default_zero: np.zeros is not given array.shape')
+    if len(c.args) == 2 and not kw:
+        d = _dtype_expr(c.args[1], {'array.dtype': 'array_dtype'}, '_default_zero')
+    elif len(c.args) == 1 and set(kw) == {'dtype'}:
+        d = _dtype_expr(kw['dtype'], {'array.dtype': 'array_dtype'}, '_default_zero')
+    elif len(c.args) == 1 and not kw:
+        d = coq_Z(2)          # numpy's default: float64
+    else:
+        raise TranslateError('_default_zero: %s' % ast.unparse(c))
+    out.append('Definition gen_default_zero_dtype (array_dtype : Z) : Z := %s.' % d)
+
+
+def item_names(repo, out):
+    """get_dask_array: the fields of out_name (f-string, in order) and the arguments of the token."""
+    rel = 'katdal/chunkstore.py'
+    gda = _method(_parse(repo, rel), 'ChunkStore', 'get_dask_array', rel)
+    asg = [n for n in ast.walk(gda) if isinstance(n, ast.Assign) and ast.unparse(n.targets[0]) == 'out_name']
+    if len(asg) != 1 or not isinstance(asg[0].value, ast.JoinedStr):
+        raise TranslateError('get_dask_array: out_name is not one f-string')
+    fields = []
+    for v in asg[0].value.values:
+        if isinstance(v, ast.FormattedValue):
+            if not isinstance(v.value, ast.Name) or v.value.id not in ('array_name', 'offset', 'token'):
+                raise TranslateError('get_dask_array: out_name field %s' % ast.unparse(v.value))
+            fields.append(v.value.id)
+    tok = [n for n in ast.walk(gda) if isinstance(n, ast.Assign) and ast.unparse(n.targets[0]) == 'token']
+    if len(tok) != 1 or not (isinstance(tok[0].value, ast.Call) and ast.unparse(tok[0].value.func) == 'da.core.tokenize'
+                             and not tok[0].value.keywords):
+        raise TranslateError('get_dask_array: token is not one da.core.tokenize(...) call')
+    args = []
+    for a in tok[0].value.args:
+        if not isinstance(a, ast.Name) or a.id not in ('self', 'chunks', 'dtype', 'index'):
+            raise TranslateError('get_dask_array: token argument %s' % ast.unparse(a))
+        args.append(a.id)
+    fa = _one_call(gda, 'da.from_array', 'get_dask_array')
+    if len(fa.args) < 3 or ast.unparse(fa.args[2]) != 'out_name':
+        raise TranslateError('get_dask_array: da.from_array is not given out_name as the name')
+    out.append('(* get_dask_array: the fields of the out_name f-string in order; arguments of tokenize *)')
+    out.append('Definition gen_out_name_fields : list string := %s.' % coq_strings(fields))
+    out.append('Definition gen_token_args : list string := %s.' % coq_strings(args))
+
+
+def item_prefixes(repo, out):
+    """_ensure_prefix_is_set, the loop of _upgrade_flags (which view fills a missing prefix), the order in which
+    view_capture_stream stacks its views."""
+    rel = 'katdal/datasources.py'
+    tree = _parse(repo, rel)
+    ep = _mfunc(tree, '_ensure_prefix_is_set', rel)
+    if [a.arg for a in ep.args.args] != ['chunk_info', 'telstate'] or _src(_body(ep)) != [
+            _nf("for info in chunk_info.values():\n    if 'prefix' not in info:\n        info['prefix'] = telstate['chunk_name']"),
+            _nf('return chunk_info')]:
+        raise TranslateError('_ensure_prefix_is_set changed: %s' % _src(_body(ep)))
+    out.append('(* _ensure_prefix_is_set: a prefix is filled in iff the entry has none, from telstate[<key>] *)')
+    out.append('Definition gen_prefix_filled_iff_absent : bool := true.')
+    out.append('Definition gen_prefix_key : string := "chunk_name"%string.')
+    uf = _mfunc(tree, '_upgrade_flags', rel)
+    body = _body(uf)
+    if [a.arg for a in uf.args.args] != ['chunk_info', 'telstate', 'capture_block_id', 'stream_name'] or len(body) != 3:
+        raise TranslateError('_upgrade_flags changed')
+    if ast.unparse(body[0]) != _nf("try:\n    archived_streams = telstate['sdp_archived_streams']\n"
+                                   "except KeyError as e:\n    return chunk_info") or \
+            ast.unparse(body[2]) != _nf('return chunk_info'):
+        raise TranslateError('_upgrade_flags: first / last statement changed: %s' % ast.unparse(body[0]))
+    loop = body[1]
+    if not (isinstance(loop, ast.For) and ast.unparse(loop.target) == 's' and ast.unparse(loop.iter) == 'archived_streams'
+            and not loop.orelse and len(loop.body) == 5):
+        raise TranslateError('_upgrade_flags: loop changed')
+    lb = _src(loop.body)
+    want = [_nf('telstate_cs = view_capture_stream(telstate, capture_block_id, s)'),
+            _nf("if telstate_cs.get('stream_type') != 'sdp.flags' or stream_name not in telstate_cs['src_streams']:\n    continue"),
+            _nf("flags_info = telstate_cs['chunk_info']"), None,
+            _nf('chunk_info = _upgrade_chunk_info(chunk_info, flags_info)')]
+    for i, w in enumerate(want):
+        if w is not None and lb[i] != w:
+            raise TranslateError('_upgrade_flags: loop statement %d is %s' % (i, lb[i]))
+    st = loop.body[3]
+    if not (isinstance(st, ast.Assign) and ast.unparse(st.targets[0]) == 'flags_info' and isinstance(st.value, ast.Call)
+            and ast.unparse(st.value.func) == '_ensure_prefix_is_set' and len(st.value.args) == 2
+            and not st.value.keywords and ast.unparse(st.value.args[0]) == 'flags_info'
+            and ast.unparse(st.value.args[1]) in ('telstate_cs', 'telstate')):
+        raise TranslateError('_upgrade_flags: the prefix of the flags stream is filled by %s' % lb[3])
+    out.append('(* _upgrade_flags: the view through which a missing prefix of the flags stream is filled (true: the view of '
+               'the flags capture stream; false: the view of the L0 stream) *)')
+    out.append('Definition gen_flags_prefix_from_stream_view : bool := %s.'
+               % ('true' if ast.unparse(st.value.args[1]) == 'telstate_cs' else 'false'))
+    out.append('Definition gen_flags_stream_type : string := "sdp.flags"%string.')
+    vc = _mfunc(tree, 'view_capture_stream', rel)
+    body = _body(vc)
+    wl = [i for i, s in enumerate(body) if isinstance(s, ast.While)]
+    if len(wl) != 1:
+        raise TranslateError('view_capture_stream: inherit loop not found')
+    order = []
+    kinds = {_nf('streams.reverse()'): None,
+             _nf('for stream in streams:\n    telstate = telstate.view(stream)'): 'stream',
+             _nf('telstate = telstate.view(capture_block_id)'): 'capture_block',
+             _nf('for stream in streams:\n    capture_stream = telstate.join(capture_block_id, stream)\n'
+                 '    telstate = telstate.view(capture_stream)'): 'capture_stream',
+             _nf('return telstate'): None}
+    for s in body[wl[0] + 1:]:
+        src = ast.unparse(s)
+        if src not in kinds:
+            raise TranslateError('view_capture_stream: unexpected statement %s' % src)
+        if kinds[src]:
+            order.append(kinds[src])
+    if sorted(order) != ['capture_block', 'capture_stream', 'stream']:
+        raise TranslateError('view_capture_stream: views stacked are %s' % order)
+    out.append('(* view_capture_stream: namespaces in the order they are SEARCHED (the view added last is searched first) *)')
+    out.append('Definition gen_view_order : list string := %s.' % coq_strings(list(reversed(order))))
+
+
+ITEMS = ITEMS + [item_dtypes, item_names, item_prefixes]
